@@ -212,7 +212,7 @@ class XSCollection:
         totalScatterComponents = {
             "elastic": self.elasticScatter,
             "inelastic": self.inelasticScatter,
-            "n2n": self.n2nScatter * 2.0,
+            "n2n": None if self.n2nScatter is None else self.n2nScatter * 2.0,
         }
         for sType, sMatrix in totalScatterComponents.items():
             if sMatrix is not None:
@@ -335,14 +335,19 @@ class XSCollection:
            ones in `attributesToIgnore` are None.
         3. Libraries are already merged if all attributes in the other library are None (This is nothing to merge!).
         """
-        attributesToIgnore = ["source", HIGHORDER_SCATTER]
-        if all(
-            v is None for k, v in self.__dict__.items() if k not in attributesToIgnore
-        ):
+        attributesToIgnore = ["source"]
+
+        def _isUnassigned(collection):
+            # higher order scatter is a (possibly empty) dictionary rather than None
+            return all(
+                v is None or (k == HIGHORDER_SCATTER and not v)
+                for k, v in collection.__dict__.items()
+                if k not in attributesToIgnore
+            )
+
+        if _isUnassigned(self):
             self.__dict__.update(other.__dict__)  # See note 2
-        elif all(
-            v is None for k, v in other.__dict__.items() if k not in attributesToIgnore
-        ):
+        elif _isUnassigned(other):
             pass  # See note 3
         else:
             overlappingAttrs = set(
